@@ -392,6 +392,24 @@ pub fn run_check(ctx: &Ctx) -> i32 {
     let mut rev = s1.clone();
     rev.reverse();
     slice(ctx, &format!("(8) all {} simple selectors in one rewriter, forward and reversed registration order x D<={}", s1.len(), if quick { 3 } else { 4 }), &full, if quick { 3 } else { 4 }, &[jobs_from(s1.clone(), s1.len(), false), jobs_from(rev, s1.len(), false)].into_iter().flatten().collect::<Vec<_>>(), true);
+    // (9) match-id boundaries: N never-matching selectors registered first (N around 32, 64, 128),
+    // then one selector of the core — its matches must not depend on its registration index
+    {
+        let mut jobs = vec![];
+        for n in [31usize, 32, 33, 63, 64, 65, 127, 128, 129] {
+            let fillers: Vec<SelList> = (0..n).map(|i| SelList::one(Complex::single(Compound::one(ty(&format!("zz{i}")))))).collect();
+            for target in simple_lists(simples_core()) {
+                let mut g = fillers.clone();
+                g.push(target);
+                jobs.push(Job { strs: g.iter().map(|s| s.render()).collect(), sels: g });
+            }
+            // two late selectors that match the same elements (the second merge into a grown set)
+            let mut g = fillers.clone();
+            g.extend(simple_lists(vec![ty("a"), Simple::Universal, Simple::Class("c".into())]));
+            jobs.push(Job { strs: g.iter().map(|s| s.render()).collect(), sels: g });
+        }
+        slice(ctx, &format!("(9) {} groups: N never-matching selectors (N in 31..33, 63..65, 127..129) followed by one core selector (or three) x Dred<=3", jobs.len()), &red, 3, &jobs, false);
+    }
     ctx.finish(
         "model_checking",
         RULE,
